@@ -712,6 +712,11 @@ func main() {
 					p = 4 // bugs/constant-condition: error (checked against Gen/RulesTable.v on the Coq side)
 				}
 			}
+			if !noUser && rng.Below(3) == 0 {
+				// an older target: some bundled rules then carry an input-independent notice and must not be
+				// in the list computed up front
+				ci.User["capabilities"] = map[string]any{"from": map[string]any{"engine": "opa", "version": oldTargets[rng.Below(len(oldTargets))]}}
+			}
 			add("lint", map[string]any{"k": b2i(custom), "p": p, "u": u, "c": c, "g": g, "nu": b2i(noUser), "f": f, "d": 0,
 				"full": b2i(ci.FullBundle), "files": ci.Files}, ci)
 		}
@@ -755,6 +760,9 @@ func b2i(b bool) int {
 	}
 	return 0
 }
+
+// older OPA targets: rules whose advice needs a newer built-in / keyword get a notice there
+var oldTargets = []string{"v0.46.0", "v0.33.0", "v0.59.0"}
 
 // oddLevels: the malformed part of the level alphabet
 var oddLevels = []string{"Ignore", "IGNORE", "off", "none", " error", "errors", "warn", "0", "ignore "}
@@ -861,7 +869,11 @@ func genCase(rng *hutil.Rng, bundledInfo map[string]any, i int) CaseIn {
 		p.DisableCategory, p.EnableCategory = catNames(), catNames()
 		p.DisableAll, p.EnableAll = rng.Below(4) == 0, rng.Below(4) == 0
 	}
-	ci := CaseIn{FullBundle: true, User: map[string]any{"rules": doc}, Params: p, Custom: custom, Cat: cat, Title: title,
+	userDoc := map[string]any{"rules": doc}
+	if rng.Below(3) == 0 {
+		userDoc["capabilities"] = map[string]any{"from": map[string]any{"engine": "opa", "version": oldTargets[rng.Below(len(oldTargets))]}}
+	}
+	ci := CaseIn{FullBundle: true, User: userDoc, Params: p, Custom: custom, Cat: cat, Title: title,
 		Fn: true, Lint: true, Files: 1, EnabledAgg: rng.Below(4) == 0}
 	if rng.Below(12) == 0 {
 		ci.NoUser, ci.User = true, nil
